@@ -126,13 +126,13 @@ def handleA (ds : DState) (st : Stats) (cfgid argh okS addrh bmfS allowedS : Str
     let expected := lipSpec cfg (addrRaw arg)
     let bad : Option String :=
       if okS == "1" then
-        if addr.length + 1 > Gen.ADDRMAX then some "address longer than the limit was accepted"
-        else if addr != expected then some s!"localiphost replacement: expected {hex expected}"
+        if addr.length + 1 > addrLimit then some "address longer than the limit was accepted"
+        else if addr != expected then some s!"address left by addrparse (quoting, source route, localiphost replacement): expected {hex expected}"
         else if (bmfS == "1") != badSenderB cfg addr then some s!"bad-sender verdict, spec={badSenderB cfg addr}"
         else if (allowedS == "1") != matchSpecB cfg addr then some s!"rcpthosts verdict, spec={matchSpecB cfg addr}"
         else none
       else if okS == "0" then
-        if expected.length + 1 > Gen.ADDRMAX then none else some "address within the limit was refused"
+        if expected.length + 1 > addrLimit then none else some "address within the limit was refused"
       else some "addrparse/addrallowed did not return"
     if let some why := bad then
       IO.println s!"ORACLE mode=A cfg={cfgid} in={argh} impl={okS} addr={addrh} bmf={bmfS} allowed={allowedS} why={why.replace " " "_"}"
